@@ -43,18 +43,18 @@ EVENT_CLAUSES = {
     "C20": [],
 }
 PROFILES = {
-    "C04": ("mixed", "transport", "full", "classic"),
+    "C04": ("mixed", "transport", "full", "classic", "wide", "multibuf"),
     "C18": ("mixed", "transport", "buffers", "classic"),
-    "C01": ("mixed", "full", "buffers", "stoch"),
-    "C02": ("full", "stoch", "mixed", "full"),
-    "C03": ("mixed", "buffers", "race", "full", "race", "multibuf"),
-    "C05": ("mixed", "buffers", "full", "stoch", "race", "multibuf"),
-    "C07": ("transport", "buffers", "full", "stoch", "race", "multibuf"),
-    "C08": ("buffers", "race", "full", "race"),
-    "C09": ("full", "stoch", "full", "mixed"),
-    "C10": ("full", "stoch", "full", "full"),
-    "C11": ("transport", "buffers", "full", "race"),
-    "C12": ("mixed", "full", "transport", "stoch"),
+    "C01": ("mixed", "full", "buffers", "stoch", "wide"),
+    "C02": ("full", "stoch", "mixed", "full", "wide"),
+    "C03": ("mixed", "buffers", "race", "full", "race", "multibuf", "wide"),
+    "C05": ("mixed", "buffers", "full", "stoch", "race", "multibuf", "wide"),
+    "C07": ("transport", "buffers", "full", "stoch", "race", "multibuf", "wide"),
+    "C08": ("buffers", "race", "full", "race", "wide", "multibuf"),
+    "C09": ("full", "stoch", "full", "mixed", "wide"),
+    "C10": ("full", "stoch", "full", "full", "wide"),
+    "C11": ("transport", "buffers", "full", "race", "wide", "multibuf"),
+    "C12": ("mixed", "full", "transport", "stoch", "wide"),
     "C20": ("mixed", "full", "buffers", "transport"),
 }
 
@@ -547,7 +547,7 @@ def c12(ctx):
 
 
 def c04(ctx):
-    sm_check(ctx, n_quick=200, extra={"hook": "c04", "record_env": True})
+    sm_check(ctx, n_quick=200, custom_p=0.4, extra={"hook": "c04", "record_env": True})
     keep_only(ctx, lambda v: not v["kind"].startswith("outcome:"))
     _merge_hook(ctx, "c04_")
     if ctx.broken_correspondence and not ctx.violations:
